@@ -65,7 +65,8 @@ def is_persistent(kind):
 
 
 class World:
-    def __init__(self, server=False):
+    def __init__(self, server=False, server_kwargs=None):
+        self.server_kwargs = dict(server_kwargs or {})
         self.sim = simmod.new_sim()
         simos.install(self.sim)
         global _LABELS
@@ -78,7 +79,7 @@ class World:
 
     def start_server(self):
         s = self.sim
-        self.server = RemoteServer(SERVER_ADDR)
+        self.server = RemoteServer(SERVER_ADDR, **self.server_kwargs)
         self.server_pid = s.new_pid()
 
         def server_main():
